@@ -51,7 +51,7 @@ CLAIMED = {
          "hand-offs are synchronised so the flow happens in every run; schedules beyond those are not needed for the oracle (the flow is observed or not)",
          "DESIGN.md §7 C13"),
  "C14": ("sanitizer: the Go race detector on deliberately racy generated programs; each report's two access lines are mapped to SSA memory instructions and compared with the escape analysis' locality in the contexts derived for the enclosing function",
-         "held on the race reports observed except for the listed known findings (deferred publication; pointer obtained by type-asserting an interface parameter of a goroutine entry): every line the race detector reported contains an instruction classified non-local. 16 sharing mechanisms x 14 access kinds x both sides.",
+         "held on the race reports observed except for the listed known findings (deferred publication; pointer obtained by type-asserting an interface parameter of a goroutine entry): every line the race detector reported contains an instruction classified non-local. 18 sharing mechanisms x 14 access kinds x both sides.",
          "race-detector reports are sound; contexts derived as the statement prescribes and merged per function (merged context is more conservative than each, so the oracle never over-demands); lines holding several memory instructions only need one non-local",
          "DESIGN.md §7 C14"),
  "C15": ("runtime monitoring of the analyzer through hooks: lattice-law checkers on graphs captured during the real escape analysis, the code's own per-instruction monotonicity self-check collected through a hook, and seeded permutations of the block/function worklists with comparison of the observable result",
